@@ -170,10 +170,21 @@ class Evaluator:
         elif k in ("Box", "Deref", "Ref"):
             self._bind(p["pat"], val, env, reassigned)
         elif k == "Or":
-            # names bound in every alternative: bind from the first
-            if p["pats"]:
-                for alt in p["pats"]:
-                    self._bind(alt, val, env, reassigned)
+            # a name bound in every alternative denotes one of several projections: ('alt', (..))
+            envs = []
+            for alt in p["pats"]:
+                e2 = {}
+                self._bind(alt, val, e2, reassigned)
+                envs.append(e2)
+            keys = set()
+            for e2 in envs:
+                keys |= set(e2)
+            for kk in keys:
+                vals = []
+                for e2 in envs:
+                    if kk in e2 and e2[kk] not in vals:
+                        vals.append(e2[kk])
+                env[kk] = vals[0] if len(vals) == 1 else ("alt", tuple(vals))
         elif k == "Slice":
             for i, sp in enumerate(p.get("before", [])):
                 self._bind(sp, ("proj", val, "slice", i), env, reassigned)
@@ -619,6 +630,8 @@ def show(t, depth=0, maxdepth=12):
         return "%s.%s#%s" % (sh(t[1]), short(t[2]), t[3])
     if k == "item":
         return "item(%s)" % sh(t[1])
+    if k == "alt":
+        return "{%s}" % " | ".join(sh(a) for a in t[1])
     if k == "ctor":
         return "%s(%s)" % (short(t[1]), ", ".join(sh(a) for a in t[2])) if t[2] else short(t[1])
     if k == "call":
